@@ -124,6 +124,14 @@ def gen_case(rng, thorough, be=None, want_listable=False):
                 if big_budget == 0: ln = rng.randint(0, 5000)
                 else: big_budget -= 1
             seed = 0 if rng.random() < 0.1 else rng.randint(1, 65535)
+            same_len = False
+            if sizes and rng.random() < 0.25:
+                # overwrite an existing file with different bytes of exactly the same length
+                (t, ii), ln = rng.choice(sorted(sizes.items()))
+                i = ii or rng.choice(pool)
+                key = (t, ii)
+                seed = rng.randint(1, 65535)
+                same_len = True
             nch = chunking(rng, ln)
             kind = "W"
             if be == 0:
@@ -131,6 +139,13 @@ def gen_case(rng, thorough, be=None, want_listable=False):
                 kind = "H" if q < 0.15 else "C" if q < 0.25 else "W"
             ops.append([kind, t, i, ln, seed, nch])
             if kind != "C": sizes[key] = ln
+            if same_len: ops.append(["R", t, i])
+            if kind == "C" and ln > 0 and rng.random() < 0.5:
+                # a write cut off before publication leaves its temporary file behind; the next write of the
+                # same name - here the boundary case, empty content - must not publish any of it
+                ops.append(["W", t, i, 0, 0, chunking(rng, 0)])
+                sizes[key] = 0
+                ops.append(["R", t, i]); ops.append(["S", t])
         elif r < 0.42:
             ops.append(["R", t, i])
         elif r < 0.70:
@@ -322,7 +337,7 @@ def run(ctx):
                     elif res != sres:
                         viol.append(("write result differs from the map specification", case, j, a, c))
                 elif a != c:
-                    viol.append(("result differs from the exact-map specification (%s)" % {"W": "write", "R": "read_full", "P": "read_partial", "L": "list", "S": "list_with_size", "D": "remove"}[o[0]], case, j, a, c))
+                    viol.append(("result differs from the exact-map specification (%s)" % {"W": "write", "R": "read_full", "P": "read_partial", "L": "list", "S": "list_with_size", "D": "remove", "H": "write observed before it is published", "C": "write cut off before it is published"}.get(o[0], o[0]), case, j, a, c))
             if interesting: nontriv.add(case)
             if len(samples) < 3 and len(info["ops"]) <= 12 and interesting:
                 samples.append({"case": case, "impl": io, "model ## spec": mo})
